@@ -601,19 +601,19 @@ package mail
 //@   requires[C11:errinv] errinv(mw)
 //@   ensures[C11:errinv] errinv(mw) && (old(mw.everfailed) ==> mw.everfailed)
 //@   ensures[C11:boundary-given-is-used] (boundary != "" && !mw.everfailed) ==> b == boundary
-//@   ensures[C08,C11:boundary-nonempty] b != ""
+//@   ensures[C01,C08,C11:boundary-nonempty] b != ""
 //@ func mail.msgWriter.getMultipartBoundary (msg, mimetype) (b)
-//@   requires[C08,C11:wf] msg != nil
-//@   ensures[C08,C11:def] b == (msg.boundary != "" ? msg.boundary : ((mimetype in msg.multiPartBoundary) ? msg.multiPartBoundary[mimetype] : ""))
+//@   requires[C01,C08,C11:wf] msg != nil
+//@   ensures[C01,C08,C11:def] b == (msg.boundary != "" ? msg.boundary : ((mimetype in msg.multiPartBoundary) ? msg.multiPartBoundary[mimetype] : ""))
 //@ at mail.msgWriter.writeMsg entry ghost[C11:g] mw.everfailed = false
-//@ at mail.msgWriter.writeMsg entry ghost[C08,C11:g] mw.usedMixed = ""
-//@ at mail.msgWriter.writeMsg entry ghost[C08,C11:g] mw.usedRelated = ""
-//@ at mail.msgWriter.writeMsg entry ghost[C08,C11:g] mw.usedAlt = ""
-//@ at mail.msgWriter.writeMsg mail.msgWriter.startMP#2 after ghost[C08,C11:g] mw.usedMixed = r0
-//@ at mail.msgWriter.writeMsg mail.msgWriter.startMP#3 after ghost[C08,C11:g] mw.usedRelated = r0
-//@ at mail.msgWriter.writeMsg mail.msgWriter.startMP#4 after ghost[C08,C11:g] mw.usedAlt = r0
+//@ at mail.msgWriter.writeMsg entry ghost[C01,C08,C11:g] mw.usedMixed = ""
+//@ at mail.msgWriter.writeMsg entry ghost[C01,C08,C11:g] mw.usedRelated = ""
+//@ at mail.msgWriter.writeMsg entry ghost[C01,C08,C11:g] mw.usedAlt = ""
+//@ at mail.msgWriter.writeMsg mail.msgWriter.startMP#2 after ghost[C01,C08,C11:g] mw.usedMixed = r0
+//@ at mail.msgWriter.writeMsg mail.msgWriter.startMP#3 after ghost[C01,C08,C11:g] mw.usedRelated = r0
+//@ at mail.msgWriter.writeMsg mail.msgWriter.startMP#4 after ghost[C01,C08,C11:g] mw.usedAlt = r0
 //@ func mail.msgWriter.writeMsg (msg)
-//@   requires[C08,C11:wf] mw != nil && msg != nil && msg.multiPartBoundary != nil
+//@   requires[C01,C08,C11:wf] mw != nil && msg != nil && msg.multiPartBoundary != nil
 //@   ensures[C08,C11:boundary-cached] (mw.usedMixed != "" ==> ("mixed" in msg.multiPartBoundary) && msg.multiPartBoundary["mixed"] == mw.usedMixed) && (mw.usedRelated != "" ==> ("related" in msg.multiPartBoundary) && msg.multiPartBoundary["related"] == mw.usedRelated) && (mw.usedAlt != "" ==> ("alternative" in msg.multiPartBoundary) && msg.multiPartBoundary["alternative"] == mw.usedAlt)
 //@   loop 1 invariant[C11:errinv] errinv(mw)
 //@   loop 2 invariant[C11:errinv] errinv(mw)
@@ -799,3 +799,19 @@ package mail
 //@ at mail.Msg.signMessage mail.msgWriter.writeMsg#1 before assert[C08:no-stale-signature-part] forall i :: 0 <= i && i < len(m.parts) ==> !m.parts[i].smime
 //@ func mail.Msg.WriteTo (writer) (n, err)
 //@   requires[C08:hist] forall i :: 0 <= i && i < len(m.parts) ==> m.parts[i] != nil
+
+// C01 (continued): nested multipart layers never share a boundary (a delimiter of the inner layer would close
+// the outer one) - for messages without a caller-fixed boundary: SetBoundary / WithBoundary document that a
+// predefined boundary only works with a single multipart layer, so that case is outside the claim. bndold: no cached boundary is one of the random boundaries still to be generated;
+// bnddistinct: the cached boundaries of the three layers differ (both hold for a Msg whose caches were filled
+// by earlier renders - entry assumptions, re-established on exit).
+//@ fn cachedb(m *mail.Msg, k string) string = ((k in m.multiPartBoundary) ? m.multiPartBoundary[k] : "")
+//@ pred bndold(m *mail.Msg) = forall k string, e int :: e >= world.mpepoch ==> cachedb(m, k) != randbnd(e)
+//@ pred differ(a string, b string) = (a != "" && b != "") ==> a != b
+//@ pred bnddistinct(m *mail.Msg) = differ(cachedb(m, "mixed"), cachedb(m, "related")) && differ(cachedb(m, "mixed"), cachedb(m, "alternative")) && differ(cachedb(m, "related"), cachedb(m, "alternative"))
+//@ func mail.msgWriter.startMP (mimeType, boundary) (b)
+//@   ensures[C01:boundary-source] ((boundary != "" && b == boundary) || b == randbnd(old(world.mpepoch))) && world.mpepoch == old(world.mpepoch) + 1
+//@ func mail.msgWriter.writeMsg (msg)
+//@   requires[C01:hist] bndold(msg) && bnddistinct(msg)
+//@   ensures[C01:nested-boundaries-differ] msg.boundary == "" ==> (differ(mw.usedMixed, mw.usedRelated) && differ(mw.usedMixed, mw.usedAlt) && differ(mw.usedRelated, mw.usedAlt))
+//@   ensures[C01:hist] msg.boundary == "" ==> (bndold(msg) && bnddistinct(msg))
